@@ -7,6 +7,11 @@ package main
 // handlers; publishes, avatar changes, account creation and deletions are client messages on real
 // sessions; garbage collection is the statement largeFileRunGarbageCollection executes on every
 // tick (store.Files.DeleteUnused(now-1h, blockSize)) on the bubble's virtual clock.
+// Histories also hold {set desc} requests which change only the requester's private note while
+// carrying an attachment list (by the owner, by another subscriber, on P2P and 'me': nothing is
+// linked or unlinked), and collection runs whose store transaction fails at commit (the adapter
+// returns the selected locations with the error and keeps the records: nothing may be removed,
+// the error must be reported).
 //
 // Model: a holder (stored message, topic, user) lists files. A file is protected while a living
 // holder lists it under one of the documented url forms; it is collectable when nothing lists it
@@ -54,7 +59,7 @@ type c16Ref struct {
 }
 
 type c16Op struct {
-	K    string   `json:"k"`           // up upfail pub newgrp setdesc acc delacc delmsg deltopic tick gc
+	K    string   `json:"k"`           // up upfail upfault pub newgrp setdesc setpriv acc delacc delmsg deltopic tick gc gcfail
 	U    int      `json:"u,omitempty"` // acting user
 	T    int      `json:"t,omitempty"` // topic: -1 me, -2 p2p with the next user, >=0 group slot
 	F    []c16Ref `json:"f,omitempty"`
@@ -68,6 +73,9 @@ type c16Hist struct {
 	Loop  bool    `json:"loop,omitempty"` // also run the server's own collection loop (period 10 virtual minutes)
 	Grpc  []int   `json:"grpc,omitempty"` // users whose connections talk protobuf (-1: the connections which create accounts)
 	Ops   []c16Op `json:"ops"`
+
+	// CloseFail: the closing collection run is preceded by one whose store transaction fails at commit
+	CloseFail bool `json:"close_fail,omitempty"`
 }
 
 func c16GenRefs(rt *rapid.T, max int) []c16Ref {
@@ -96,8 +104,10 @@ func c16HistGen(rt *rapid.T) c16Hist {
 			h.Grpc = append(h.Grpc, u)
 		}
 	}
+	h.CloseFail = rapid.Bool().Draw(rt, "close_fail")
 	n := rapid.IntRange(4, 24).Draw(rt, "n_ops")
-	kinds := []string{"up", "up", "up", "up", "pub", "pub", "pub", "pub", "pub", "pub", "newgrp", "setdesc", "setdesc", "acc", "delacc", "delmsg", "delmsg", "deltopic", "tick", "tick", "tick", "gc", "gc", "upfail", "upfault"}
+	kinds := []string{"up", "up", "up", "up", "pub", "pub", "pub", "pub", "pub", "pub", "newgrp", "setdesc", "setdesc", "acc", "delacc", "delmsg", "delmsg", "deltopic", "tick", "tick", "tick", "gc", "gc", "upfail", "upfault",
+		"setpriv", "setpriv", "gcfail"}
 	for i := 0; i < n; i++ {
 		op := c16Op{K: rapid.SampledFrom(kinds).Draw(rt, "k"), U: rapid.IntRange(0, h.Users-1).Draw(rt, "u")}
 		if i < 2 {
@@ -116,6 +126,15 @@ func c16HistGen(rt *rapid.T) c16Hist {
 		case "setdesc":
 			op.T = rapid.SampledFrom([]int{-1, -1, 0, 1}).Draw(rt, "t")
 			op.F = c16GenRefs(rt, 2)
+		case "setpriv":
+			// a {set desc} which changes only the requester's private note, yet carries an attachment list.
+			// Groups: N odd = sent by another subscriber (subscribed first), N even = by the owner.
+			op.T = rapid.SampledFrom([]int{0, 0, 0, 1, -2, -1}).Draw(rt, "t")
+			op.N = rapid.IntRange(0, 3).Draw(rt, "n")
+			op.F = c16GenRefs(rt, 2)
+			if len(op.F) == 0 {
+				op.F = []c16Ref{{I: rapid.IntRange(0, 7).Draw(rt, "ref_i")}}
+			}
 		case "delacc":
 			op.N = rapid.IntRange(0, 3).Draw(rt, "n")
 		case "delmsg":
@@ -618,6 +637,41 @@ func (r *c16Run) step(i int, op c16Op) *kit.Viol {
 				r.cls["linked:topic-avatar-update"] = true
 			}
 		}
+	case "setpriv":
+		name, key, owner, ok := r.topicOf(op)
+		if !ok {
+			return nil
+		}
+		who := "me"
+		switch {
+		case op.T >= 0 && op.N%2 == 1:
+			// another subscriber of the group: attach subscribes (joins) the user if need be
+			op.U, who = (owner+1)%len(w.users), "group-subscriber"
+		case op.T >= 0:
+			op.U, who = owner, "group-owner"
+		case op.T == -2:
+			who = "p2p"
+		}
+		if !r.attach(op.U, name) {
+			return nil
+		}
+		extra, res := r.refsJSON(op.F)
+		id := w.nextID()
+		fr := w.do(r.session(op.U), `{"set":{"id":"`+id+`","topic":"`+name+`","desc":{"private":{"note":"c16 note `+fmt.Sprint(i)+`"}}}`+extra+`}`)
+		c := wCtrl(fr, id)
+		if c == nil || c.Code != 200 {
+			return nil
+		}
+		// Model: the topic (user) shows the avatar it showed before; the list of a request which does
+		// not change the description is no avatar: nothing is linked, nothing is unlinked.
+		r.cls["private-only-update:"+who] = true
+		names := false
+		for _, x := range res {
+			names = names || x.file >= 0
+		}
+		if h := r.m.holders[key]; names && h != nil && h.alive && len(h.strict) > 0 {
+			r.cls["private-only-update:list-names-an-upload,holder-has-a-linked-avatar"] = true
+		}
 	case "acc":
 		ss := w.addSess()
 		if r.isGrpc(-1) {
@@ -702,7 +756,9 @@ func (r *c16Run) step(i int, op c16Op) *kit.Viol {
 			return nil
 		}
 		g.dead = true
-		delete(r.attached, fmt.Sprintf("%d:%s", g.owner, g.name))
+		for u := range w.users {
+			delete(r.attached, fmt.Sprintf("%d:%s", u, g.name))
+		}
 		for _, k := range r.m.order {
 			h := r.m.holders[k]
 			if k == "topic:"+g.name || strings.HasPrefix(k, "msg:topic:"+g.name+":") {
@@ -732,6 +788,8 @@ func (r *c16Run) step(i int, op c16Op) *kit.Viol {
 		}
 	case "gc":
 		return r.collect(i, r.h.Block)
+	case "gcfail":
+		return r.collectFailing(i, r.h.Block)
 	}
 	return nil
 }
@@ -762,6 +820,49 @@ func (r *c16Run) collect(i int, block int) *kit.Viol {
 	r.gcRuns++
 	what := fmt.Sprintf("op %d (collection run, block size %d, cut-off %s)", i, block, cutoff.Format("15:04:05.000"))
 	return r.judge(what, cutoff, mustGo, block, true)
+}
+
+// collectFailing runs one garbage collection pass whose store transaction fails at commit: the
+// adapter hands back the locations it selected together with the error and keeps the records (what
+// the SQL adapters' `return locations, tx.Commit()` does). A failed run removes nothing — every
+// upload still has its record, its bytes and can be downloaded — and reports the error.
+func (r *c16Run) collectFailing(i int, block int) *kit.Viol {
+	m := r.m
+	now := time.Now()
+	cutoff := types.TimeNow().Add(-time.Hour)
+	collectable := 0
+	for _, f := range m.files {
+		if !f.gone && !f.noBytes && m.strictHeld(f.idx) == nil && !m.looseHeld(f.idx) && f.at.Before(cutoff) {
+			collectable++
+		}
+	}
+	mem.A.Arm(mem.Plan{FailNth: 1, FailMethod: "FileDeleteUnused", AtCommit: true})
+	err := store.Files.DeleteUnused(now.Add(-time.Hour), block)
+	mem.A.Disarm()
+	fired := mem.A.Fired
+	what := fmt.Sprintf("op %d (collection run whose store transaction fails at commit, block size %d, cut-off %s, %d collectable upload(s))",
+		i, block, cutoff.Format("15:04:05.000"), collectable)
+	if !fired {
+		return kit.V("gc:run-did-not-ask-the-store", "%s: DeleteUnused returned %v without calling the adapter's FileDeleteUnused", what, err)
+	}
+	if rem := r.missing(); len(rem) > 0 {
+		return kit.V("gc:failed-run-removed-upload", "%s: the run failed (error reported: %v) yet the record of upload %s (%s) is gone", what, err, rem[0].id, rem[0].url)
+	}
+	if v := r.judge(what, cutoff, nil, 0, true); v != nil {
+		if v.Sig == "gc:bytes-lost" || v.Sig == "gc:kept-file-not-served" || v.Sig == "gc:directory-differs" {
+			v = kit.V("gc:failed-run-removed-bytes", "%s (error reported by the run: %v)", v.Msg, err)
+		}
+		return v
+	}
+	if err == nil {
+		return kit.V("gc:failed-run-reported-no-error", "%s: the store failed but DeleteUnused returned nil", what)
+	}
+	r.gcRuns++
+	r.cls["gc-failing-at-commit"] = true
+	if collectable > 0 {
+		r.cls["gc-failing-at-commit:with-collectable-uploads"] = true
+	}
+	return nil
 }
 
 // observe (loop mode): the server's own collection loop may have fired any number of times in
@@ -973,7 +1074,13 @@ func c16HistExec(t *testing.T, h c16Hist, tol func(*kit.Viol) bool) (o kit.Outco
 		if viol == nil && !run.cutShort && !run.loop {
 			// the closing run: everything unlisted is past the grace period now
 			run.sleep(61 * time.Minute)
-			viol = run.collect(len(h.Ops), 0)
+			if h.CloseFail {
+				// first a run which fails at commit: it must leave everything for the next one
+				viol = run.collectFailing(len(h.Ops), 0)
+			}
+			if viol == nil {
+				viol = run.collect(len(h.Ops), 0)
+			}
 			if viol == nil {
 				viol = run.collect(len(h.Ops)+1, 0)
 			}
